@@ -160,8 +160,19 @@ def ident_part(check, impl_serde):
     variants = ["FooBar", "r#Match", "r#Type", "Ok", "r#LoopCount", "A"]
     ts = [m_path("typeshare")]
     reqs, meta = [], []
-    for rule in [None] + RULES:
-        ra = [m_list("serde", [m_nv("rename_all", lit_s(rule))])] if rule else []
+    # where the container carries the rule: alone; in a second / third serde attribute; after other arguments of the same
+    # attribute; with foreign attributes in between (serde_derive reads all serde attributes of the container)
+    def layouts(rule):
+        ra = m_nv("rename_all", lit_s(rule))
+        other = m_list("serde", [m_path("deny_unknown_fields")])
+        bound = m_list("serde", [m_nv("bound", lit_s(""))])
+        derive = m_list("derive", [m_path("Debug"), m_path("Clone")])
+        return [[m_list("serde", [ra])],
+                [other, m_list("serde", [ra])],
+                [other, derive, bound, m_list("serde", [ra])],
+                [m_list("serde", [m_path("deny_unknown_fields"), m_nv("bound", lit_s("")), ra])],
+                [m_list("serde", [ra]), other]]
+    for rule, ra in [(None, [])] + [(r, l) for r in RULES for l in layouts(r)]:
         f = {"attrs": [], "items": [
             {"kind": "struct", "attrs": ts + ra, "ident": "S", "generics": [],
              "fields": ("named", [field([], w, t_path("u8")) for w in fields])},
